@@ -153,8 +153,9 @@ impl KBucket {
         }
     }
 
-    fn remove_node(&mut self, node_id: &NodeId) {
-        self.nodes.retain(|n| &n.id != node_id);
+    fn remove_node(&mut self, node_id: &NodeId) -> Option<NodeInfo> {
+        let position = self.nodes.iter().position(|n| &n.id == node_id)?;
+        Some(self.nodes.remove(position))
     }
 
     fn get_nodes(&self) -> &[NodeInfo] {
@@ -192,9 +193,9 @@ impl KademliaRoutingTable {
         self.buckets[bucket_index].add_node(node)
     }
 
-    fn remove_node(&mut self, node_id: &NodeId) {
+    fn remove_node(&mut self, node_id: &NodeId) -> Option<NodeInfo> {
         let bucket_index = self.get_bucket_index(node_id);
-        self.buckets[bucket_index].remove_node(node_id);
+        self.buckets[bucket_index].remove_node(node_id)
     }
 
     fn find_closest_nodes(&self, key: &DhtKey, count: usize) -> Vec<NodeInfo> {
@@ -458,7 +459,7 @@ impl GeographicDiversityEnforcer {
         *self.region_counts.entry(region).or_insert(0) += 1;
     }
 
-    fn _remove(&mut self, region: GeographicRegion) {
+    fn remove(&mut self, region: GeographicRegion) {
         if let Some(count) = self.region_counts.get_mut(&region) {
             *count = count.saturating_sub(1);
         }
@@ -1217,9 +1218,14 @@ impl DhtCoreEngine {
 
     /// Handle node failure
     pub async fn handle_node_failure(&mut self, failed_node: NodeId) -> Result<()> {
-        // Remove from routing table
-        let mut routing = self.routing_table.write().await;
-        routing.remove_node(&failed_node);
+        // Remove from routing table and give its admission slots back
+        let removed = {
+            let mut routing = self.routing_table.write().await;
+            routing.remove_node(&failed_node)
+        };
+        if let Some(node) = removed {
+            self.release_admission_slots(&node.address).await;
+        }
 
         // Schedule repairs for affected data
         let _replication = self.replication_manager.write().await;
@@ -1233,10 +1239,13 @@ impl DhtCoreEngine {
     /// This is called when a node fails security validation or is detected
     /// as malicious through Sybil/collusion detection.
     pub async fn evict_node(&self, node_id: &NodeId, reason: EvictionReason) -> Result<()> {
-        // 1. Remove from routing table
-        {
+        // 1. Remove from routing table and give its admission slots back
+        let removed = {
             let mut routing = self.routing_table.write().await;
-            routing.remove_node(node_id);
+            routing.remove_node(node_id)
+        };
+        if let Some(node) = removed {
+            self.release_admission_slots(&node.address).await;
         }
 
         // 2. Update security metrics based on eviction reason
@@ -1321,6 +1330,32 @@ impl DhtCoreEngine {
         self.close_group_validator.clone()
     }
 
+    /// Extract the IP from a `NodeInfo.address` ("ip:port" or just "ip").
+    fn parse_node_ip(address: &str) -> Option<IpAddr> {
+        if let Ok(socket) = address.parse::<SocketAddr>() {
+            Some(socket.ip())
+        } else {
+            address.parse::<IpAddr>().ok()
+        }
+    }
+
+    /// Give back the IP-diversity and region slots a routing-table entry held.
+    async fn release_admission_slots(&self, address: &str) {
+        let Some(ip) = Self::parse_node_ip(address) else {
+            return;
+        };
+        {
+            let mut enforcer = self.ip_diversity_enforcer.write().await;
+            if let Ok(analysis) = enforcer.analyze_unified(ip) {
+                enforcer.remove_unified(&analysis);
+            }
+        }
+        self.geographic_diversity_enforcer
+            .write()
+            .await
+            .remove(GeographicRegion::from_ip(ip));
+    }
+
     /// Add a node to the DHT with security checks
     pub async fn add_node(&mut self, node: NodeInfo) -> Result<()> {
         // 1. Security Check: Close Group Validator
@@ -1333,72 +1368,84 @@ impl DhtCoreEngine {
             }
         }
 
-        // 2. Security Check: IP Diversity (both IPv4 and IPv6)
-        {
-            // Parse IP address from node.address string
-            // address comes as "ip:port" or just "ip"
-            let ip_addr: Option<IpAddr> = if let Ok(socket) = node.address.parse::<SocketAddr>() {
-                Some(socket.ip())
-            } else {
-                node.address.parse::<IpAddr>().ok()
-            };
-
-            if let Some(ip) = ip_addr {
-                let mut enforcer = self.ip_diversity_enforcer.write().await;
-                match enforcer.analyze_unified(ip) {
-                    Ok(analysis) => {
-                        if !enforcer.can_accept_unified(&analysis) {
-                            tracing::warn!("Node rejected due to IP diversity limits: {:?}", ip);
-                            return Err(anyhow::anyhow!(
-                                "IP diversity limits exceeded for address {ip}"
-                            ));
-                        }
-                        // Record valid node - propagate error as this is a critical security operation
-                        enforcer.add_unified(&analysis).map_err(|e| {
-                            tracing::error!(
-                                "Failed to record node IP for diversity tracking: {:?}",
-                                e
-                            );
-                            anyhow::anyhow!("IP diversity tracking failed: {e:?}")
-                        })?;
-                    }
-                    Err(e) => {
-                        tracing::debug!("Could not analyze IP {:?}: {:?}", ip, e);
-                        // Continue without IP diversity check if analysis fails
-                    }
-                }
-            }
+        // A peer that is already listed keeps no second set of slots: drop the old
+        // entry (and its slots) and admit the new information from scratch.
+        let previous = {
+            let mut routing = self.routing_table.write().await;
+            routing.remove_node(&node.id)
+        };
+        if let Some(previous) = previous {
+            self.release_admission_slots(&previous.address).await;
         }
 
-        // 3. Security Check: Geographic Diversity
-        {
-            // Parse IP address from node.address string (reuse parsed IP from above)
-            let ip_addr: Option<IpAddr> = if let Ok(socket) = node.address.parse::<SocketAddr>() {
-                Some(socket.ip())
-            } else {
-                node.address.parse::<IpAddr>().ok()
-            };
+        // address comes as "ip:port" or just "ip"
+        let ip_addr = Self::parse_node_ip(&node.address);
 
-            if let Some(ip) = ip_addr {
-                let region = GeographicRegion::from_ip(ip);
-                let mut enforcer = self.geographic_diversity_enforcer.write().await;
-                if !enforcer.can_accept(region) {
-                    tracing::warn!(
-                        "Node rejected due to geographic diversity limits: {:?} in region {:?}",
-                        ip,
-                        region
-                    );
-                    return Err(anyhow::anyhow!(
-                        "Geographic diversity limits exceeded for region {region:?} (IP: {ip})"
-                    ));
+        // 2. Security Check: IP Diversity (both IPv4 and IPv6) - check only; the
+        //    slots are taken once the node is really in the routing table
+        let ip_analysis = if let Some(ip) = ip_addr {
+            let enforcer = self.ip_diversity_enforcer.read().await;
+            match enforcer.analyze_unified(ip) {
+                Ok(analysis) => {
+                    if !enforcer.can_accept_unified(&analysis) {
+                        tracing::warn!("Node rejected due to IP diversity limits: {:?}", ip);
+                        return Err(anyhow::anyhow!(
+                            "IP diversity limits exceeded for address {ip}"
+                        ));
+                    }
+                    Some(analysis)
                 }
-                enforcer.add(region);
+                Err(e) => {
+                    tracing::debug!("Could not analyze IP {:?}: {:?}", ip, e);
+                    // Continue without IP diversity check if analysis fails
+                    None
+                }
             }
+        } else {
+            None
+        };
+
+        // 3. Security Check: Geographic Diversity - check only
+        let region = ip_addr.map(GeographicRegion::from_ip);
+        if let (Some(ip), Some(region)) = (ip_addr, region)
+            && !self
+                .geographic_diversity_enforcer
+                .read()
+                .await
+                .can_accept(region)
+        {
+            tracing::warn!(
+                "Node rejected due to geographic diversity limits: {:?} in region {:?}",
+                ip,
+                region
+            );
+            return Err(anyhow::anyhow!(
+                "Geographic diversity limits exceeded for region {region:?} (IP: {ip})"
+            ));
         }
 
         // 4. Add to routing table
-        let mut routing = self.routing_table.write().await;
-        routing.add_node(node)?;
+        {
+            let mut routing = self.routing_table.write().await;
+            routing.add_node(node)?;
+        }
+
+        // The node is admitted: only now take its slots, so that an admission that
+        // fails part-way (region cap, full bucket) consumes none.
+        if let Some(analysis) = ip_analysis {
+            // Record valid node - propagate error as this is a critical security operation
+            self.ip_diversity_enforcer
+                .write()
+                .await
+                .add_unified(&analysis)
+                .map_err(|e| {
+                    tracing::error!("Failed to record node IP for diversity tracking: {:?}", e);
+                    anyhow::anyhow!("IP diversity tracking failed: {e:?}")
+                })?;
+        }
+        if let Some(region) = region {
+            self.geographic_diversity_enforcer.write().await.add(region);
+        }
 
         // 5. Update Metrics
         // (Placeholder: Add metric for new node joining if available)
